@@ -291,3 +291,283 @@ def judge(sc, obs):
     if obs.get("acquired_end"):
         out.append(("session/still-counted-at-end", f"_acquired={obs.get('acquired_end')} after the follow-up request was released"))
     return out
+
+
+# =====================================================================================================
+# family 2: how the response is consumed.  A connection must go back to the connector as soon as the response
+# body has been received completely — whatever the response headers advertise, however the body is framed and
+# segmented, and whether or not the caller releases the response object explicitly.
+
+RESP_HEADERS = {
+    "plain": b"",
+    "advertises-upgrade": b"Connection: Upgrade\r\nUpgrade: h2c\r\n",        # a plain 200, nothing is upgraded
+    "upgrade-header-only": b"Upgrade: h2c, websocket\r\n",
+    "keep-alive": b"Connection: keep-alive\r\nKeep-Alive: timeout=5\r\n",
+    "connection-close": b"Connection: close\r\n",
+}
+FRAMINGS = ["content-length", "chunked", "empty"]
+TIMINGS = ["with-headers", "later", "two-later-segments"]
+CONSUMERS = ["stream-to-eof-keep", "iter-chunked-keep", "read-keep", "read-then-release", "ctx-manager", "release-unread"]
+
+
+class ConsumePeer(PeerTransport):
+    def __init__(self, loop, proto, sc):
+        super().__init__(loop, proto, "consume", [])
+        self.sc = sc
+
+    def _react(self):
+        if self.closing:
+            return
+        i = self.buf.find(b"\r\n\r\n")
+        if i < 0:
+            return
+        del self.buf[:i + 4]
+        sc = self.sc
+        body = b"0123456789abcdef" * 4
+        if sc["framing"] == "content-length":
+            head = b"Content-Length: %d\r\n" % len(body)
+            parts = [body[:20], body[20:]]
+        elif sc["framing"] == "chunked":
+            head = b"Transfer-Encoding: chunked\r\n"
+            parts = [b"14\r\n" + body[:20] + b"\r\n", b"%x\r\n" % len(body[20:]) + body[20:] + b"\r\n0\r\n\r\n"]
+        else:
+            head = b"Content-Length: 0\r\n"
+            parts = [b"", b""]
+        hdr = b"HTTP/1.1 200 OK\r\n" + RESP_HEADERS[sc["resp_headers"]] + head + b"\r\n"
+        if sc["timing"] == "with-headers":
+            self._send(hdr + parts[0] + parts[1])
+        elif sc["timing"] == "later":
+            self._send(hdr)
+            self.loop.call_later(0.05, self._send, parts[0] + parts[1])
+        else:
+            self._send(hdr)
+            self.loop.call_later(0.05, self._send, parts[0])
+            self.loop.call_later(0.10, self._send, parts[1])
+
+
+def run_consume(sc):
+    import aiohttp
+    from aiohttp.connector import BaseConnector
+    obs = {}
+
+    async def main():
+        class Connector(BaseConnector):
+            transports = []
+
+            async def _create_connection(self, req, traces, timeout):
+                proto = self._factory()
+                tr = ConsumePeer(self._loop, proto, sc)
+                self.transports.append(tr)
+                proto.connection_made(tr)
+                return proto
+
+        conn = Connector(limit=sc["limit"], limit_per_host=sc["lph"])
+        conn.transports = []
+        session = aiohttp.ClientSession(connector=conn, timeout=aiohttp.ClientTimeout(total=None))
+        keep = []
+        try:
+            async def exchange():
+                resp = await session.get("http://h0/")
+                keep.append(resp)               # the caller keeps the response object (e.g. results of gather)
+                c = sc["consumer"]
+                if c == "stream-to-eof-keep":
+                    while await resp.content.read(7):
+                        pass
+                elif c == "iter-chunked-keep":
+                    async for _ in resp.content.iter_chunked(5):
+                        pass
+                elif c == "read-keep":
+                    await resp.read()
+                elif c == "read-then-release":
+                    await resp.read()
+                    resp.release()
+                elif c == "ctx-manager":
+                    async with resp:
+                        await resp.read()
+                elif c == "release-unread":
+                    resp.release()
+            try:
+                await asyncio.wait_for(exchange(), 30)
+                obs["first"] = "done"
+            except asyncio.TimeoutError:
+                obs["first"] = "timeout"
+            except aiohttp.ClientError as e:
+                obs["first"] = "error:" + type(e).__name__
+            await asyncio.sleep(1.0)
+            obs["acquired"] = len(conn._acquired)
+            obs["per_host"] = sum(len(v) for v in conn._acquired_per_host.values())
+            try:
+                r2 = await asyncio.wait_for(session.get("http://h0/"), 20)
+                obs["second"] = "status:%d" % r2.status
+                await r2.read()
+                r2.release()
+            except asyncio.TimeoutError:
+                obs["second"] = "timeout"
+            except aiohttp.ClientError as e:
+                obs["second"] = "error:" + type(e).__name__
+            await asyncio.sleep(0.2)
+            obs["acquired_end"] = len(conn._acquired)
+        finally:
+            await session.close()
+        return obs
+
+    res, excs, quiescent = vrun(main)
+    if res is None:
+        obs["quiescent"] = True
+    return obs
+
+
+def consume_scenarios():
+    for limit, lph in ((1, 0), (0, 1)):
+        for rh in RESP_HEADERS:
+            for fr in FRAMINGS:
+                for tm in TIMINGS:
+                    if fr == "empty" and tm != "with-headers":
+                        continue
+                    for co in CONSUMERS:
+                        yield {"family": "consume", "limit": limit, "lph": lph, "resp_headers": rh, "framing": fr,
+                               "timing": tm, "consumer": co}
+
+
+def judge_consume(sc, obs):
+    out = []
+    if obs.get("quiescent"):
+        return [("session/blocked-forever", f"scenario never completes: {obs}")]
+    if obs.get("first") != "done":
+        return [("session/consume/first-request-" + str(obs.get("first")), f"{obs}")]
+    tag = f"{sc['consumer']}/{sc['resp_headers']}"
+    if obs.get("acquired", 0) + obs.get("per_host", 0):
+        out.append((f"session/still-counted-after-body-eof/{tag}",
+                    f"body received completely ({sc['framing']}, {sc['timing']}), consumer {sc['consumer']}: "
+                    f"_acquired={obs.get('acquired')} per-host={obs.get('per_host')} 1 s later"))
+    if obs.get("second") == "timeout":
+        out.append((f"session/next-request-starved-after-body-eof/{tag}", "follow-up GET got no connection in 20 s (limit 1)"))
+    elif not str(obs.get("second", "")).startswith("status:200"):
+        out.append((f"session/next-request-failed-after-body-eof/{tag}", f"follow-up GET: {obs.get('second')}"))
+    if obs.get("acquired_end"):
+        out.append(("session/still-counted-at-end", f"_acquired={obs.get('acquired_end')} at the end"))
+    return out
+
+
+# =====================================================================================================
+# family 3: one endpoint, several spellings.  `limit_per_host` is a limit per endpoint (host, port, is_ssl):
+# different spellings of the same endpoint share it, different endpoints do not.
+
+SPELLINGS = {
+    # name -> (url, endpoint)
+    "plain": ("http://h0/", ("h0", 80, False)),
+    "explicit-default-port": ("http://h0:80/", ("h0", 80, False)),
+    "upper-case-host": ("http://H0/", ("h0", 80, False)),
+    "path-query-fragment": ("http://h0:80/a/b?c=d#e", ("h0", 80, False)),
+    "userinfo": ("http://u:p@h0/", ("h0", 80, False)),
+    "other-port": ("http://h0:8080/", ("h0", 8080, False)),
+    "https": ("https://h0/", ("h0", 443, True)),
+    "https-explicit-default-port": ("https://h0:443/", ("h0", 443, True)),
+    "https-on-80": ("https://h0:80/", ("h0", 80, True)),
+    "other-host": ("http://h1/", ("h1", 80, False)),
+}
+
+
+class HoldPeer(PeerTransport):
+    """answers only when told to"""
+
+    def __init__(self, loop, proto):
+        super().__init__(loop, proto, "hold", [])
+
+    def _react(self):
+        pass
+
+    def answer(self):
+        if not self.closing:
+            self._send(b"HTTP/1.1 200 OK\r\nContent-Length: 2\r\n\r\nok")
+
+
+def run_spelling(sc):
+    """start one request per spelling at the same time, nobody is answered for a while: how many connections
+    does each endpoint get?"""
+    import aiohttp
+    from aiohttp.connector import BaseConnector
+    obs = {}
+
+    async def main():
+        class Connector(BaseConnector):
+            async def _create_connection(self, req, traces, timeout):
+                proto = self._factory()
+                tr = HoldPeer(self._loop, proto)
+                tr.url = str(req.url)
+                tr.endpoint = ((req.url.host or "").lower(), req.url.port, req.url.scheme in ("https", "wss"))
+                tr.key = req.connection_key
+                self.transports.append(tr)
+                proto.connection_made(tr)
+                return proto
+
+        conn = Connector(limit=0, limit_per_host=sc["lph"])
+        conn.transports = []
+        session = aiohttp.ClientSession(connector=conn, timeout=aiohttp.ClientTimeout(total=None))
+        try:
+            urls = [SPELLINGS[n][0] for n in sc["names"]]
+            tasks = [asyncio.ensure_future(session.get(u)) for u in urls]
+            await asyncio.sleep(0.5)
+            obs["open_by_url"] = sorted(tr.url for tr in conn.transports)
+            obs["open_endpoints"] = [list(tr.endpoint) for tr in conn.transports]
+            obs["keys"] = {tr.url: repr(tuple(tr.key)) for tr in conn.transports}
+            obs["key_list"] = [repr(tuple(tr.key)) for tr in conn.transports]
+            for _ in range(len(urls) + 1):
+                for tr in list(conn.transports):
+                    tr.answer()
+                await asyncio.sleep(0.1)
+                for t in tasks:
+                    if t.done() and not t.cancelled() and t.exception() is None:
+                        t.result().release()
+                await asyncio.sleep(0.1)
+            obs["done"] = sum(t.done() for t in tasks)
+            for t in tasks:
+                t.cancel()
+            await asyncio.sleep(0.1)
+            obs["acquired_end"] = len(conn._acquired)
+        finally:
+            await session.close()
+        return obs
+
+    res, excs, quiescent = vrun(main)
+    if res is None:
+        obs["quiescent"] = True
+    return obs
+
+
+def spelling_scenarios():
+    import itertools
+    names = list(SPELLINGS)
+    for lph in (1, 2):
+        for a, b in itertools.combinations(names, 2):
+            yield {"family": "spelling", "lph": lph, "names": [a, b] * lph}
+        yield {"family": "spelling", "lph": lph, "names": names}
+
+
+def judge_spelling(sc, obs):
+    out = []
+    if obs.get("quiescent"):
+        return [("session/blocked-forever", f"{obs}")]
+    from yarl import URL
+    want = {}
+    for n in sc["names"]:
+        url, ep = SPELLINGS[n]
+        want.setdefault(ep, []).append(str(URL(url).with_fragment(None)))
+    got = {}
+    for e in obs.get("open_endpoints", []):
+        got[tuple(e)] = got.get(tuple(e), 0) + 1
+    for ep, urls in want.items():
+        n = got.get(ep, 0)
+        if n > sc["lph"]:
+            out.append(("session/limit-per-host-exceeded/same-endpoint-different-spelling",
+                        f"{n} simultaneous connections to endpoint {ep} with limit_per_host={sc['lph']} "
+                        f"(requests: {[SPELLINGS[x][0] for x in sc['names'] if SPELLINGS[x][1] == ep]})"))
+        if n < min(sc["lph"], len(urls)):
+            out.append(("session/endpoint-starved/distinct-endpoints-share-a-limit",
+                        f"endpoint {ep} got {n} connections although limit_per_host={sc['lph']} and {len(urls)} requests wait "
+                        f"(other endpoints were busy)"))
+    if obs.get("done") != len(sc["names"]):
+        out.append(("session/spelling/requests-not-finished", f"{obs.get('done')} of {len(sc['names'])} requests finished"))
+    if obs.get("acquired_end"):
+        out.append(("session/still-counted-at-end", f"_acquired={obs.get('acquired_end')} at the end"))
+    return out
